@@ -69,8 +69,35 @@ class Path:
         return f"[{c}] -> {self.kind} {self.value_text()}"
 
 
+# constructor-field projection K(a, b).f -> a for the plain dataclasses of the analysed program: {class name: [init field names]}
+# (set by Canon, which knows the program; a name defined twice with different fields is left out)
+CTOR_FIELDS: dict[str, list] = {}      # name -> [(init field names, other attribute names of the class)]
+
+
 class _Simp(ast.NodeTransformer):
     """[f(v) for v in [a, b]] -> [f(a), f(b)]  (arises when a temporary holding a list display is substituted)"""
+    def visit_Attribute(self, node):
+        self.generic_visit(node)
+        v = node.value
+        if isinstance(v, ast.Call) and isinstance(v.func, ast.Name) and v.func.id == "old_" and len(v.args) == 1:
+            v = v.args[0]
+        if isinstance(node.ctx, ast.Load) and isinstance(v, ast.Call) and isinstance(v.func, (ast.Name, ast.Attribute)):
+            cands = CTOR_FIELDS.get(v.func.id if isinstance(v.func, ast.Name) else v.func.attr) or []
+            # classes of that name: the one that has the field, provided no other one has an attribute of that name at all
+            hit = [fs for fs, other in cands if node.attr in fs]
+            names = hit[0] if len(hit) == 1 and not any(node.attr in other for fs, other in cands if node.attr not in fs) else None
+            if names and node.attr in names and not any(isinstance(a, ast.Starred) for a in v.args) and not any(k.arg is None for k in v.keywords) \
+                    and len(v.args) <= len(names):
+                given = dict(zip(names, v.args))
+                given.update({k.arg: k.value for k in v.keywords})
+                others = [x for f_, x in given.items() if f_ != node.attr]
+                if node.attr in given and all(norm.is_pure(x, _PURE) for x in others):
+                    got = given[node.attr]
+                    if v is not node.value:      # the constructor was evaluated before a mutation: so was its argument
+                        got = ast.Call(func=ast.Name(id="old_", ctx=ast.Load()), args=[got], keywords=[]) if not isinstance(got, ast.Constant) else got
+                    return ast.copy_location(got, node)
+        return node
+
     def _comp(self, node):
         self.generic_visit(node)
         if len(node.generators) == 1 and not node.generators[0].ifs and isinstance(node.generators[0].iter, (ast.List, ast.Tuple)) \
